@@ -71,6 +71,8 @@ func (g *genState) seg(root bool, last bool) Seg {
 		s = Seg{Kind: VarRe, Name: g.name(), Re: r.Intn(len(Regexes))}
 	case k < 93 && curly && !root:
 		s = Seg{Kind: VarSuf, Name: g.name(), Suf: r.Pick(Suffixes)}
+	case k < 95 && curly && !root:
+		s = Seg{Kind: VarPre, Name: g.name(), Lit: r.Pick([]string{"v", "id-", "x_"}), PreRe: r.Chance(1, 2), Re: r.Intn(len(Regexes))}
 	case last && !root && !g.o.NoWild:
 		s = Seg{Kind: Wild, Name: g.name()}
 	default:
@@ -268,6 +270,11 @@ func shapeKey(p Tmpl) string {
 			b.WriteString("/S:" + s.Suf)
 		case Wild:
 			b.WriteString("/W")
+		case VarPre:
+			b.WriteString("/P:" + s.Lit)
+			if s.PreRe {
+				b.WriteString(":" + Regexes[s.Re].Src)
+			}
 		}
 		if s.Verb != "" {
 			b.WriteString(":" + s.Verb)
@@ -290,6 +297,11 @@ func instantiate(r *core.Rand, full Tmpl) []string {
 			v = r.Pick(Regexes[s.Re].Yes)
 		case VarSuf:
 			v = r.Pick(VarVals) + s.Suf
+		case VarPre:
+			v = s.Lit + r.Pick(VarVals)
+			if s.PreRe {
+				v = s.Lit + r.Pick(Regexes[s.Re].Yes)
+			}
 		case Wild:
 			n := r.Range(1, 3)
 			for i := 0; i < n; i++ {
@@ -335,6 +347,9 @@ func mediaHeader(r *core.Rand, want string, accept bool) string {
 		return want
 	case 7:
 		return "  image/gif  ,  " + want + "  ;  x=y"
+	}
+	if accept && r.Chance(1, 2) {
+		return r.Pick(Medias) + ";q=0, " + want // q is a matter for the entity writer: the router only asks whether some member is producible
 	}
 	return want + "," + want
 }
@@ -586,4 +601,31 @@ func HitReq(r *core.Rand, s *SvcSpec, rs *RouteSpec) Req {
 		req.BodyLen = 5
 	}
 	return req
+}
+
+// DeepCounts are segment counts around powers of two (limits tend to sit there).
+var DeepCounts = []int{31, 32, 33, 63, 64, 65, 127, 128, 129, 255, 256, 257, 1000}
+
+// DeepReq builds a request that a tail-wildcard route of the table admits, with exactly n path segments
+// (ok=false when the table has no such route or its fixed part is already longer).
+func DeepReq(r *core.Rand, t *Table, n int) (Req, bool) {
+	for si := range t.Svcs {
+		s := &t.Svcs[si]
+		for ri := range s.Routes {
+			rs := &s.Routes[ri]
+			full := Full(s, rs)
+			if len(full) == 0 || full[len(full)-1].Kind != Wild || len(full)-1 >= n {
+				continue
+			}
+			req := HitReq(r, s, rs)
+			toks := instantiate(r, full[:len(full)-1])
+			for len(toks) < n {
+				toks = append(toks, "d")
+			}
+			req.Path = "/" + strings.Join(toks, "/")
+			req.Class = "deep"
+			return req, true
+		}
+	}
+	return Req{}, false
 }
